@@ -991,7 +991,31 @@ class TLFn(NFn):
     def tr_assign(self, tgt, value, rest, env, ind, ctx, hint=None, node=None):
         env2 = dict(env)
         if isinstance(tgt, ast.Name):
-            pre, c, t = self.tx(value, env)
+            tmp0 = self.tmp
+            try:
+                pre, c, t = self.tx(value, env)
+            except Unsupported:
+                self.tmp = tmp0          # the names handed out by the failed attempt are free again
+                # `x = [E for v in IT if C1 if C2 ...]` whose conditions may raise has no direct rendering; it IS the loop
+                #     x = [];  for v in IT:  if C1:  if C2:  x.append(E)
+                # provided v is a plain name used nowhere else in the function (a comprehension does not leak its variable)
+                g = value.generators[0] if isinstance(value, ast.ListComp) and len(value.generators) == 1 else None
+                if g is None or g.is_async or not isinstance(g.target, ast.Name) or not g.ifs or hint is not None or tgt.id in env \
+                        or g.target.id in env or g.target.id == tgt.id \
+                        or sum(1 for n in ast.walk(self.f) if isinstance(n, ast.Name) and n.id == g.target.id
+                               and not any(n is m for m in ast.walk(value))) > 0:
+                    raise
+                app = ast.Expr(value=ast.Call(func=ast.Attribute(value=ast.Name(id=tgt.id, ctx=ast.Load()), attr="append", ctx=ast.Load()),
+                                              args=[value.elt], keywords=[]))
+                inner = [app]
+                for cnd in reversed(g.ifs):
+                    inner = [ast.If(test=cnd, body=inner, orelse=[])]
+                loop = ast.For(target=g.target, iter=g.iter, body=inner, orelse=[])
+                init = ast.Assign(targets=[ast.Name(id=tgt.id, ctx=ast.Store())], value=ast.List(elts=[], ctx=ast.Load()))
+                new = [ast.copy_location(init, node or value), ast.copy_location(loop, node or value)]
+                for n in new:
+                    ast.fix_missing_locations(n)
+                return self.block(new + list(rest), env, ind, ctx)
             if hint is not None:
                 c = self.coerce_any(c, t, hint, node, "annotated assignment")
                 t = hint
@@ -1423,6 +1447,22 @@ class TLFn(NFn):
         if s.orelse or s.finalbody or len(s.handlers) != 1 or not s.body:
             fail(s, "try form")
         h = s.handlers[0]
+        # `try: B  except E: return c1` followed by `return c2` (c1, c2 constants, no return inside B) is the flag form
+        #     retval = c2;  try: B  except E: retval = c1;  return retval
+        # (a constant has no effect, so binding it before B changes nothing): normalised to that form, which is translated below
+        if len(rest) == 1 and isinstance(rest[0], ast.Return) and isinstance(rest[0].value, ast.Constant) \
+                and len(h.body) == 1 and isinstance(h.body[0], ast.Return) and isinstance(h.body[0].value, ast.Constant) \
+                and not any(isinstance(n, ast.Return) for b in s.body for n in ast.walk(b)) \
+                and "retval" not in env and not any(isinstance(n, ast.Name) and n.id == "retval" for n in ast.walk(self.f)):
+            flag = ast.Name(id="retval", ctx=ast.Store())
+            pre = ast.copy_location(ast.Assign(targets=[flag], value=rest[0].value), s)
+            h2 = ast.ExceptHandler(type=h.type, name=h.name,
+                                   body=[ast.copy_location(ast.Assign(targets=[ast.Name(id="retval", ctx=ast.Store())], value=h.body[0].value), h.body[0])])
+            t2 = ast.copy_location(ast.Try(body=list(s.body), handlers=[ast.copy_location(h2, h)], orelse=[], finalbody=[]), s)
+            ret = ast.copy_location(ast.Return(value=ast.copy_location(ast.Name(id="retval", ctx=ast.Load()), rest[0])), rest[0])
+            for n in (pre, t2, ret):
+                ast.fix_missing_locations(n)
+            return self.block([pre, t2, ret], env, ind, ctx)
         if h.type is None or (isinstance(h.type, ast.Name) and h.type.id in {"Exception", "BaseException"}
                               and h.type.id not in env):
             prim = "try_except_any"
